@@ -201,3 +201,11 @@ Definition quote_char (c : N) : text :=
   else [c].
 Definition quote_text (t : text) : text := 34 :: flat_map quote_char t ++ [34].
 Definition show_bool01 (b : bool) : text := if b then [49] else [48].
+
+(* UTF-8 encoding (Rust `str::as_bytes`) *)
+Definition utf8_bytes1 (c : N) : list N :=
+  if c <? 128 then [c]
+  else if c <? 2048 then [192 + c / 64; 128 + c mod 64]
+  else if c <? 65536 then [224 + c / 4096; 128 + (c / 64) mod 64; 128 + c mod 64]
+  else [240 + c / 262144; 128 + (c / 4096) mod 64; 128 + (c / 64) mod 64; 128 + c mod 64].
+Definition utf8_bytes (t : text) : list N := flat_map utf8_bytes1 t.
